@@ -22,6 +22,9 @@ def _param_options(names: t.List[str], k: int, kinds: t.Sequence[str], rec_max: 
         for s, d in itertools.permutations(earlier, 2):
             if d != inp:
                 opts.append(('rec', {'start': s, 'dest': d, 'max': rec_max}))
+        for d in earlier:
+            if d != inp:
+                opts.append(('rec', {'start': d, 'dest': d, 'max': rec_max}))   # a polling node: start == destination
     return opts
 
 
@@ -345,6 +348,8 @@ def recx(tier: str = 'quick') -> t.List[dict]:
 
     def region(b: _Builder, shape: str, start: str) -> str:
         """Add the nodes of a region below `start`; return the destination."""
+        if shape == 'self':
+            return start
         if shape == 'direct':
             return b.node('D', start)
         if shape == 'chain':
@@ -359,9 +364,11 @@ def recx(tier: str = 'quick') -> t.List[dict]:
             return b.node('D', b.node('A', start), b.node('R', b.node('B', start)))
         raise KeyError(shape)
 
-    shapes = ('direct', 'chain', 'diamond', 'side-input', 'relay') if q else ('direct', 'chain', 'chain3', 'diamond', 'side-input', 'relay')
+    shapes = ('self', 'direct', 'chain', 'diamond', 'side-input', 'relay') if q else ('self', 'direct', 'chain', 'chain3', 'diamond', 'side-input', 'relay')
     for start_kind in ('input', 'inner'):
         for shape in shapes:
+            if shape == 'self' and start_kind == 'input':
+                continue
             for mx in ((1,) if q else (1, 2)):
                 for use_default in (False, True):
                     def mk() -> t.Tuple[_Builder, str, str]:
